@@ -142,7 +142,8 @@ func runLockRules(p *core.Prog, rep *core.Report, withDatatype bool) *lockset {
 		core.Failf("vacuity guard: only %d guarded fields inferred", len(l.guarded))
 	}
 	if l.mergeFlag == nil {
-		core.Failf("role unresolved: merge-in-progress flag")
+		// not a tool failure: a Merge that never raises a flag has no exclusion at all (the flag store was removed)
+		rep.Bad("LK4", "merge-flag-set:(*xixi_kv.DB).Merge", "Merge raises its in-progress flag", "", "no boolean field of DB is stored true by Merge: the in-progress test can never refuse a second, concurrent Merge")
 	}
 	return l
 }
